@@ -568,6 +568,98 @@ def expandTabs [BEq σ] (v : Variant) (t : Text σ) (tabSize : Option Nat := non
         pure (parts.foldl (expandPart ts t.style) acc)) (t.blankCopy v, (0 : Int))
       pure { t with plain := r.1.plain, length := (r.1.plain.length : Int), spans := r.1.spans }
 
+/-! #### split with the `endswith` repair, slices with a step, and the remaining public helpers -/
+
+/-- `split` with the repair of `pending_fixes/C05-split-overlapping-separator.diff` as a flag.
+`endsw = true` is rich as released: the last line is dropped when `text.endswith(separator)` — for a separator
+that overlaps itself (`"aaa".split("aa")`) that line is not blank and characters are lost;
+`endsw = false` is the repaired code: the last line is dropped when it is blank.
+(`splitW true = split`; an explicit argument for the same reason as `rstripEndW`.) -/
+def splitW [BEq σ] (endsw : Bool) (v : Variant) (t : Text σ) (sep : List Char := ['\n'])
+    (includeSeparator : Bool := false) (allowBlank : Bool := false) : Except PyErr (List (Text σ)) :=
+  if sep.isEmpty then .error .assertionError
+  else
+    let text := t.plain
+    let ms := findAll sep text
+    if ms.isEmpty then .ok [t.copy v]
+    else do
+      let lines ←
+        if includeSeparator then t.divide v (ms.map (·.2))
+        else do
+          let ls ← t.divide v (ms.flatMap (fun m => [m.1, m.2]))
+          pure (ls.filter (fun line => line.plain != sep))
+      let dropLast :=
+        if endsw then sep.isSuffixOf text
+        else match lines.getLast? with
+          | some l => l.plain.isEmpty
+          | none => false
+      if !allowBlank && dropLast then pure lines.dropLast else pure lines
+
+/-- `text[a:b:step]` (text.py:196-204): `slice.indices` raises `ValueError` for step 0, any step other than 1
+is refused with `TypeError`. -/
+def getSliceStep [BEq σ] (v : Variant) (t : Text σ) (a b : Option Int) (step : Option Int) : Except PyErr (Text σ) :=
+  match step with
+  | none => t.getSlice v a b
+  | some k => if k == 0 then .error .valueError else if k == 1 then t.getSlice v a b else .error .typeError
+
+/-- `remove_suffix(suffix)` -/
+def removeSuffix (v : Variant) (t : Text σ) (suffix : List Char) : Text σ :=
+  if suffix.isSuffixOf t.plain then t.rightCrop v (suffix.length : Int) else t
+
+/-- `fit(width)` -/
+def fit [BEq σ] (v : Variant) (t : Text σ) (width : Int) : Except PyErr (List (Text σ)) := do
+  let lines ← t.split v
+  pure (lines.map (fun l => l.setLength v width))
+
+/-- `text + str` -/
+def addStr (v : Variant) (t : Text σ) (s : List Char) : Text σ := (t.copy v).appendStr s none
+
+/-- `text + Text` -/
+def addText (v : Variant) (t u : Text σ) : Text σ := (t.copy v).appendT u
+
+/-- `str.split("\n")` -/
+def splitNL : List Char → List Char → List (List Char)
+  | [], cur => [cur.reverse]
+  | c :: rest, cur => if c == '\n' then cur.reverse :: splitNL rest [] else splitNL rest (c :: cur)
+
+/-- `len(match.group(1))` for `^( *)(.*)$`: the leading U+0020 spaces only -/
+def leadingSpaces (s : List Char) : Nat := (s.takeWhile (· == ' ')).length
+
+/-- `detect_indentation()` (text.py:1046-1065): gcd of the even indentations (of every line, blank ones
+included), `or 1`; 1 when there is none. -/
+def detectIndentation (t : Text σ) : Nat :=
+  let evens := ((splitNL t.plain []).map leadingSpaces).filter (fun n => n % 2 == 0)
+  match evens with
+  | [] => 1
+  | x :: xs => let g := xs.foldl Nat.gcd x; if g == 0 then 1 else g
+
+/-- state of the `for line in text.split()` loop of `with_indent_guides`: (new_lines, blank_lines) -/
+def indentStep (v : Variant) (size : Nat) (indentLine : List Char) (style : σ)
+    (acc : Except PyErr (List (Text σ) × Nat)) (line : Text σ) : Except PyErr (List (Text σ) × Nat) :=
+  match acc with
+  | .error e => .error e
+  | .ok (newLines, blank) =>
+    let indent := leadingSpaces line.plain
+    if (line.plain.drop indent).isEmpty then .ok (newLines, blank + 1)
+    else if size == 0 then .error .zeroDivisionError
+    else
+      let newIndent := (List.replicate (indent / size) indentLine).flatten ++ List.replicate (indent % size) ' '
+      let line1 := line.setPlain (newIndent ++ line.plain.drop newIndent.length)
+      let line2 := line1.stylize v style 0 (some (newIndent.length : Int))
+      .ok (newLines ++ List.replicate blank (new v newIndent style) ++ [line2], 0)
+
+/-- `with_indent_guides(indent_size, character=…, style=…)` (text.py:1067-1113); `null` is the style `""`
+of the `Text("\n")` the lines are joined with. -/
+def withIndentGuides [BEq σ] (v : Variant) (null : σ) (t : Text σ) (indentSize : Option Nat)
+    (character : List Char) (style : σ) : Except PyErr (Text σ) := do
+  let size := indentSize.getD (detectIndentation t)
+  let text ← (t.copy v).expandTabs v none
+  let indentLine := character ++ List.replicate (size - 1) ' '
+  let lines ← text.split v
+  let (newLines, blank) ← lines.foldl (indentStep v size indentLine style) (.ok ([], 0))
+  let newLines := newLines ++ List.replicate blank (new v [] style)
+  pure ((new v ['\n'] null).join v newLines)
+
 /-! #### render -/
 
 /-- one entry of the `spans` event list of `render`: `(offset, leaving, style_id)` -/
